@@ -453,3 +453,68 @@ CONTRACTS["optimization:SpendingPackageAdjustment.set_total_spend"] = dict(
         ("C14.other_years_are_left_alone", "instructions.alloc['a'].get(2030.0) == other[0] and instructions.alloc['b'].get(2030.0) == other[1] and len(instructions.alloc['a'].t) == 2"),
     ],
     defined_props=["C14"])
+
+
+# ---- SpendingAdjustment (C14 / C15: the adjusted values ARE the spending of the program in the adjusted years): update_instructions writes
+# value i at year i of the program's spending series (creating the series when the program had none) and touches no other program;
+# get_initialization starts each year from its explicit initial value, else from the spending the instructions imply in that year
+def _env_spending_adj(has_series):
+    def make(it):
+        from pyvc.interp import PyObjV
+        from pyvc.core import LArr
+        from pyvc import source
+
+        om, um = source.load("optimization"), source.load("utils")
+        xs = [z3.Real("x_%d" % i) for i in range(2)]
+        old = [z3.Real("old_%d" % i) for i in range(2)]
+        ts = lambda vals: PyObjV("TimeSeries", um, {"t": [2020.0, 2025.0], "vals": list(vals), "units": "$", "assumption": None, "sigma": None, "_sampled": False})
+        other = ts([z3.Real("o_0"), z3.Real("o_1")])
+        alloc = {"other": other}
+        if has_series:
+            alloc["prog"] = ts(old)
+        instructions = PyObjV("ProgramInstructions", source.load("programs"), {"alloc": alloc})
+        self = PyObjV("SpendingAdjustment", om, {"name": "prog", "prog_name": "prog", "t": [2020.0, 2025.0]})
+        return {"self": self, "instructions": instructions, "adjustable_values": LArr(2, it._list_reader(xs)), "xs": xs, "OTHER": other, "OTHER_VALS": list(other.fields["vals"])}
+
+    return make
+
+
+for _hs in (True, False):
+    CONTRACTS["optimization:SpendingAdjustment.update_instructions#%s" % ("existing_series" if _hs else "no_series_yet")] = dict(
+        schema=schema, make_env=_env_spending_adj(_hs), concrete_new=["TimeSeries"],
+        ensures=[("C14+C15.each_adjusted_value_is_the_programs_spending_in_its_year", "instructions.alloc['prog'].get(2020.0) == xs[0] and instructions.alloc['prog'].get(2025.0) == xs[1] and len(instructions.alloc['prog'].t) == 2"),
+                 ("C14+C15.other_programs_are_untouched", "instructions.alloc['other'] is OTHER and OTHER.vals == OTHER_VALS and len(instructions.alloc) == 2")],
+        defined_props=["C14", "C15"])
+
+
+def _env_spending_init(explicit):
+    def make(it):
+        from pyvc.interp import PyObjV
+        from pyvc.core import Opaque
+        from pyvc import source
+
+        om = source.load("optimization")
+        ini = [z3.Real("initial_%d" % i) for i in range(2)]
+        adj = [PyObjV("Adjustable", om, {"name": "prog", "initial_value": ini[i] if explicit[i] else None}) for i in range(2)]
+        self = PyObjV("SpendingAdjustment", om, {"name": "prog", "prog_name": "prog", "t": [2020.0, 2025.0], "adjustables": adj})
+        return {"self": self, "progset": PyObjV("ProgramSet", source.load("programs"), {"name": "ps"}), "instructions": Opaque("instructions"), "ini": ini, "ASKED": []}
+
+    return make
+
+
+def _ghost_get_alloc(it, t, instructions):
+    from pyvc.core import LArr
+
+    it.live_env["ASKED"].append((t, instructions))
+    v = z3.Real("implied_spending_%s" % str(t).replace(".", "_"))
+    return {"prog": LArr(1, lambda i, v=v: v), "other": LArr(1, lambda i: z3.RealVal(0))}
+
+
+for _e in ((True, True), (False, True), (False, False)):
+    CONTRACTS["optimization:SpendingAdjustment.get_initialization#%s" % "_".join("explicit" if x else "implied" for x in _e)] = dict(
+        schema=schema, make_env=_env_spending_init(_e), call_stubs={"progset.get_alloc": _ghost_get_alloc},
+        ghost_params={"implied_spending_2020_0": "real", "implied_spending_2025_0": "real"},
+        ensures=[("C15.start_from_the_explicit_value_else_from_the_spending_in_force_in_that_year",
+                  "len(result) == 2 and result[0] == %s and result[1] == %s" % ("ini[0]" if _e[0] else "implied_spending_2020_0", "ini[1]" if _e[1] else "implied_spending_2025_0")),
+                 ("C15.the_instructions_are_asked_for_exactly_the_years_without_an_explicit_value", "[a[0] for a in ASKED] == %r and all(a[1] is instructions for a in ASKED)" % [y for y, x in zip((2020.0, 2025.0), _e) if not x])],
+        defined_props=["C15"])
